@@ -282,7 +282,14 @@ def run(R):
              "profiles are only rotated by np.roll (their values never enter): a profile is modelled as its rotation offset",
              "the bookkeeping attributes the real __init__ creates are re-created by the harness (names discovered from the source)")
     R.out_of_claim("period targets outside the alphabet", "histories longer than the bound", "cube contents (multiset preservation follows from rotation-only updates)")
-    parts = R.pmap(work, [(h, shape) for h in hs])
+    items = [(h, shape) for h in hs]
+    # nearby non-folding periods on a cube with four sub-integrations: total drifts of 0.96 and 1.04 bins round to the same
+    # shift in the last sub-integration but to different shifts in a middle one (increments [0,0,1,0])
+    pa, pb = (P0 * (1 + d * P0 / (TOBS * 8)) for d in (0.96, 1.04))
+    for h in ([("p", pa), ("p", pb)], [("p", pb), ("p", pa)], [("p", pa), ("p", pb), ("p", P0)], [("p", pa), ("dm", "sym"), ("p", pb)]):
+        items.append((h, (4, 1, 8)))
+    R.bounds["near_periods"] = f"histories over the two nearby periods {pa!r}, {pb!r} on a (4,1,8) cube"
+    parts = R.pmap(work, items)
     R.vacuity_witness("c17", sum(p.reached for p in parts) > 0)
     # twin: a cube re-tuned to another DM must differ from the untouched cube for some DM
     RFD = build_class()
